@@ -78,12 +78,48 @@ R11.4 config templates and mock templates are both created with Funcs(template_f
 	// ---- R11.1
 	idx := -1
 	var dataObj types.Object
-	for i, s := range fd.Body.List {
-		if as, ok := s.(*ast.AssignStmt); ok && as.Tok == token.DEFINE && len(as.Lhs) == 1 && len(as.Rhs) == 1 {
-			if cl, ok := as.Rhs[0].(*ast.CompositeLit); ok && types.ExprString(cl.Type) == "TemplateData" {
-				idx = i
-				dataObj = info.Defs[as.Lhs[0].(*ast.Ident)]
+	top := fd
+	// the variables are bound in ParseTemplates or in a private helper of it that takes the same
+	// (interface, source package) parameters
+	for _, g := range familyOf(cp, top) {
+		for i, s := range g.Body.List {
+			switch x := s.(type) {
+			case *ast.AssignStmt:
+				if x.Tok == token.DEFINE && len(x.Lhs) == 1 && len(x.Rhs) == 1 {
+					if cl, ok := x.Rhs[0].(*ast.CompositeLit); ok && types.ExprString(cl.Type) == "TemplateData" {
+						idx = i
+						dataObj = info.Defs[x.Lhs[0].(*ast.Ident)]
+						fd = g
+					}
+				}
+			case *ast.DeclStmt:
+				// var data TemplateData, filled field by field afterwards
+				if gd, ok := x.Decl.(*ast.GenDecl); ok && gd.Tok == token.VAR {
+					for _, sp := range gd.Specs {
+						vs := sp.(*ast.ValueSpec)
+						if len(vs.Names) == 1 && len(vs.Values) == 0 && typeIs(info.TypeOf(vs.Type), "config.TemplateData") {
+							dataObj = info.Defs[vs.Names[0]]
+							fd = g
+							idx = i
+						}
+					}
+				}
 			}
+		}
+	}
+	// the value is complete after the last statement that assigns one of its fields
+	if dataObj != nil {
+		for i, s := range fd.Body.List {
+			ast.Inspect(s, func(n ast.Node) bool {
+				if as, ok := n.(*ast.AssignStmt); ok {
+					for _, l := range as.Lhs {
+						if se, ok := ast.Unparen(l).(*ast.SelectorExpr); ok && isObj(info, se.X, dataObj) && i > idx {
+							idx = i
+						}
+					}
+				}
+				return true
+			})
 		}
 	}
 	if idx < 0 {
@@ -145,6 +181,10 @@ R11.4 config templates and mock templates are both created with Funcs(template_f
 				if (w == `""` && got == "zero") || (w == "zero" && got == `""`) {
 					got = w
 				}
+				// a field that is never assigned keeps its zero value
+				if _, assigned := f[k]; !assigned && (w == "zero" || w == `""`) {
+					got = w
+				}
 				if got == w {
 					c.OK("R11.1", key, r.Pos(fd.Body.List[idx].Pos()), k+" <- "+w)
 				} else {
@@ -202,6 +242,7 @@ R11.4 config templates and mock templates are both created with Funcs(template_f
 		})
 		c.Check(storePos.IsValid() && initPos.IsValid() && storePos < initPos, "R11.1", "NewRootConfig|config-file-in-use", r.Pos(nr.Pos()), "ConfigFile = path of the file actually loaded, before the levels inherit it", "the `config` parameter is not set to the config file actually loaded before the levels are initialised: ConfigDir is \".\" whenever the file was found by searching parent directories")
 	}
+	fd = top
 	// ---- R11.2
 	cfg := cp.Types.Scope().Lookup("Config").Type().Underlying().(*types.Struct)
 	tagOf := map[string]string{}
@@ -210,12 +251,14 @@ R11.4 config templates and mock templates are both created with Funcs(template_f
 	}
 	wantLabels := map[string]bool{"dir": true, "filename": true, "pkgname": true, "structname": true, "template-schema": true}
 	var tm *ast.CompositeLit
-	ast.Inspect(fd.Body, func(n ast.Node) bool {
-		if cl, ok := n.(*ast.CompositeLit); ok && types.ExprString(cl.Type) == "map[string]*string" {
-			tm = cl
-		}
-		return true
-	})
+	for _, g := range familyOf(cp, fd) {
+		ast.Inspect(g.Body, func(n ast.Node) bool {
+			if cl, ok := n.(*ast.CompositeLit); ok && types.ExprString(cl.Type) == "map[string]*string" {
+				tm = cl
+			}
+			return true
+		})
+	}
 	if tm == nil {
 		c.Fail("R11.2", "ParseTemplates|template-map", r.Pos(fd.Pos()), "the map of templated parameters was not found")
 	} else {
@@ -273,9 +316,16 @@ R11.4 config templates and mock templates are both created with Funcs(template_f
 func ruleFixpoint(c *Ctx, r *Repo, cp *packages.Package, fd *ast.FuncDecl) {
 	info := cp.TypesInfo
 	var loop *ast.ForStmt
-	for _, s := range fd.Body.List {
-		if fs, ok := s.(*ast.ForStmt); ok {
-			loop = fs
+	top := fd
+	// the rendering loop sits in ParseTemplates or in a private helper of it
+	for _, g := range familyOf(cp, top) {
+		for _, s := range g.Body.List {
+			if fs, ok := s.(*ast.ForStmt); ok && loop == nil {
+				if _, isFlag := ast.Unparen(fs.Cond).(*ast.Ident); isFlag || g == top {
+					loop = fs
+					fd = g
+				}
+			}
 		}
 	}
 	if loop == nil {
